@@ -184,6 +184,56 @@ pub fn c11_names() -> Vec<String> {
         .collect()
 }
 
+/// Near-keyword names: well-formed names that contain *no* keyword of the format but begin or end
+/// with a proper part of a multi-character keyword (Han 工具 / 具 of 具有, x现 of 现得, 外 of 外像, ...).
+/// They are inside every property's definition of an ordinary name.
+pub fn near_keyword_names(f: Fmt) -> Vec<String> {
+    // (computed once per format: the boundary test is cubic in the size of the keyword table)
+    static CACHE: std::sync::OnceLock<Vec<Vec<String>>> = std::sync::OnceLock::new();
+    let all = CACHE.get_or_init(|| ALL_FMT.iter().map(|f| near_keyword_names_all(*f).into_iter().filter(|n| boundary_safe(*f, n)).collect()).collect());
+    all[ALL_FMT.iter().position(|x| *x == f).unwrap()].clone()
+}
+
+/// ... including those that are only unambiguous where nothing combines with them (as a whole
+/// top-level term): written directly before 有, `x具` spells the copula 具有 across the token boundary,
+/// which no parser can tell apart and no property asks for.
+pub fn near_keyword_names_all(f: Fmt) -> Vec<String> {
+    let e = f.e();
+    let kws = keywords(e);
+    adversarial_names(f)
+        .into_iter()
+        .filter(|n| !kws.iter().any(|k| *k != "-" && *k != "_" && n.contains(k)))
+        .collect()
+}
+
+/// No keyword of the format can be read across a boundary between `name` and any keyword written
+/// directly before or after it (formats without mandatory spaces: Han `x将` + `同` = `x` + `将同`).
+pub fn boundary_safe(f: Fmt, name: &str) -> bool {
+    let kws = keywords(f.e());
+    let nlen = name.chars().count();
+    let mut around: Vec<&str> = kws.clone();
+    around.push("");
+    for k1 in &around {
+        for k2 in &around {
+            let s: Vec<char> = k1.chars().chain(name.chars()).chain(k2.chars()).collect();
+            let (lo, hi) = (k1.chars().count(), k1.chars().count() + nlen);
+            for w in &kws {
+                let wc: Vec<char> = w.chars().collect();
+                if wc.len() < 2 || wc.len() > s.len() {
+                    continue;
+                }
+                for p in 0..=(s.len() - wc.len()) {
+                    // an occurrence that overlaps the name (the name itself contains no keyword, so it crosses a boundary)
+                    if p < hi && p + wc.len() > lo && !(p >= lo && p + wc.len() <= hi) && s[p..p + wc.len()] == wc[..] {
+                        return false;
+                    }
+                }
+            }
+        }
+    }
+    true
+}
+
 /// Adversarial names for a format: well-formed by C01's definition but built from the format's own
 /// keywords (fixed enumeration, identical on every run).
 pub fn adversarial_names(f: Fmt) -> Vec<String> {
